@@ -68,7 +68,7 @@ impl<'buf> Session<'buf> {
             Property::ReceiveMaximum(self.data.pending_server_packet_ids.capacity() as u16),
         ];
         let will = self.will.clone();
-        let keepalive = self.runtime.keepalive_interval.as_secs() as u16;
+        let keepalive = self.runtime.configured_keepalive.as_secs() as u16;
         let clean_start = !self.data.session_present;
         let auth = self.auth;
         debug!(
@@ -154,7 +154,7 @@ impl<'buf> Session<'buf> {
         let mut max_send_quota = local_quota;
         let mut max_qos = None;
         let mut maximum_packet_size = None;
-        let mut keepalive_interval = self.runtime.keepalive_interval;
+        let mut keepalive_interval = self.runtime.configured_keepalive;
         let mut assigned_client_id: Option<String<64>> = None;
 
         let property_result = (|| {
